@@ -5,6 +5,16 @@ HERE = os.path.dirname(os.path.abspath(__file__))
 ALL = ["C%02d" % i for i in range(1, 19)]
 
 CHECKS = {
+ "C15": dict(
+   technique="TLA+ model XtCli (stdout buffer, per-input flush, bail paths) model-checked with TLC; argument vectors with a failing input at every position replayed on the real binaries (pipe and file)",
+   text="TLC checks in every state of the command-line model that the frames of all finished inputs are on the file descriptor at any exit and that nothing is left buffered at exit 0; every argument vector of up to 3 (thorough: 4) tokens over inputs of several sizes and failure kinds, plus random lists of up to 6 inputs, is run on the real binaries with stdout a pipe and a regular file, and stdout must equal the library translations of the inputs the model says are finished (plus at most a prefix of the failing input's output).",
+   note="Input sizes: bytes, 40 KB, 300 KB. What is captured after the process exits is what reached the descriptor; no strace is needed for that.",
+   design_ref="DESIGN.md 4.8, 6 (C15)"),
+ "C16": dict(
+   technique="TLA+ model XtCli (write failures) model-checked with TLC; runs with a vanished pipe reader and with /dev/full replayed on the real binaries, wait status and stderr compared",
+   text="The command-line model includes what one failing write(2) does (EPIPE: restore SIG_DFL and raise SIGPIPE; other errors: reported, exit 1); TLC checks that SIGPIPE deaths are silent, that success never hides lost output and that other write errors are reported. Each exported run is executed with the pipe's reader gone before start or after k bytes (with more than a pipe capacity outstanding) and with /dev/full; the real wait status (signal 13 vs exit 1) and stderr must match.",
+   note="The closing consumer is deterministic by construction; k in {0, 1, 4096, 65536, 100000}.",
+   design_ref="DESIGN.md 4.8, 6 (C16)"),
  "C13": dict(
    technique="TLA+ model XtCli of main.rs model-checked with TLC over all argument vectors of bounded length; every vector replayed on the real debug/release binaries (pipe, file, pty)",
    text="TLC explores the model of the command line (lexopt's left-to-right parsing, terminal guard, per-input loop, bail paths) for every argument vector of up to 3 tokens over the option/operand vocabulary and checks the exit-status and stream-discipline invariants in every state; each vector, with the predicted exit status, stdout content, stderr class and named input, is executed on the real binaries with real files and compared.",
